@@ -167,6 +167,25 @@ pub fn overflow_seeking(x: i128) -> Vec<f64> {
     v.into_iter().filter(|k| k.is_finite()).collect()
 }
 
+/// scalars derived from the operand itself: the value as a double (a quotient of exactly +-1), small
+/// multiples and fractions of it, its reciprocal - each with its neighbours and both signs
+pub fn self_seeking(x: i128) -> Vec<f64> {
+    let mut v = vec![];
+    if x != 0 {
+        let xf = x as f64;
+        for r in [xf, xf / 2.0, xf * 2.0, xf / 3.0, xf / 10.0, 1.0 / xf, xf + 1.0, xf - 1.0] {
+            for d in [-1i64, 0, 1] {
+                let f = f64::from_bits((r.to_bits() as i64 + d) as u64);
+                if f.is_finite() {
+                    v.push(f);
+                    v.push(-f);
+                }
+            }
+        }
+    }
+    v
+}
+
 pub fn edge_seeking(x: i128, limit: i128) -> Vec<f64> {
     let mut v = vec![];
     if x != 0 {
